@@ -201,6 +201,18 @@ func (c *srvClient) readReply(id int) string {
 	return fmt.Sprintf("bad%x", buf)
 }
 
+// serverEndStillOpen: the client has seen the end of the stream. A socket that was closed answers further bytes with a
+// reset, after which writing fails; a socket that was only shut down for writing keeps taking them.
+func (c *srvClient) serverEndStillOpen() bool {
+	for i := 0; i < 20; i++ {
+		if _, err := c.conn.Write([]byte{0}); err != nil {
+			return false
+		}
+		time.Sleep(50 * time.Millisecond)
+	}
+	return true
+}
+
 // has the server closed the connection? (a read that ends without data)
 func (c *srvClient) waitClosed() bool {
 	_ = c.conn.SetReadDeadline(time.Now().Add(srvWait))
@@ -483,6 +495,9 @@ func runSrv(ts []string) string {
 			if e.reject[k] && cfg[2] == '1' {
 				if c.waitClosed() {
 					o = "r" + countStr(k)
+					if c.serverEndStillOpen() {
+						o = "r-NOT-CLOSED-the-server-end-still-takes-bytes"
+					}
 				} else {
 					o = "to"
 				}
@@ -507,6 +522,9 @@ func runSrv(ts []string) string {
 				if e.reject[kk] {
 					if clients[kk].waitClosed() {
 						o = "r"
+						if clients[kk].serverEndStillOpen() {
+							o = "r-NOT-CLOSED-the-server-end-still-takes-bytes"
+						}
 					} else {
 						o = "to"
 					}
@@ -545,6 +563,41 @@ func runSrv(ts []string) string {
 				break
 			}
 			o = c.readReply(id)
+		case "m":
+			// a client that sends early: 25 requests (ids id..id+24) in ONE write of exactly 300 bytes - what one read of
+			// the connection loop can take - and then waits for the 25 replies
+			c := clients[k]
+			if c == nil {
+				o = "nc"
+				break
+			}
+			var burst, want []byte
+			for j := 0; j < 25; j++ {
+				burst = append(burst, fc3Frame(id+j, 1)...)
+				want = append(want, byte((id+j)>>8), byte(id+j), 0, 0, 0, 5, 1, 3, 2, byte((id+j)>>8), byte(id+j))
+			}
+			if _, err := c.conn.Write(burst); err != nil {
+				o = "eof"
+				break
+			}
+			got := make([]byte, len(want))
+			_ = c.conn.SetReadDeadline(time.Now().Add(srvWait))
+			if n, err := io.ReadFull(c.conn, got); err != nil {
+				var ne net.Error
+				if errors.As(err, &ne) && ne.Timeout() {
+					o = "to"
+				} else if n == 0 {
+					o = "eof"
+				} else {
+					o = fmt.Sprintf("cut%x", got[:n])
+				}
+				break
+			}
+			if string(got) == string(want) {
+				o = fmt.Sprintf("r%dx25", id)
+			} else {
+				o = fmt.Sprintf("bad%x", got)
+			}
 		case "s":
 			c := clients[k]
 			if c == nil {
